@@ -130,10 +130,12 @@ def check_trigger(repo, rep):
     sides = {"buy": W.enum_value(repo, "sides", "BUY"), "sell": W.enum_value(repo, "sides", "SELL")}
     market = W.enum_value(repo, "order_types", "MARKET")
     executed = W.enum_value(repo, "order_statuses", "EXECUTED")
-    E, lev = F(100), F(10)
-    for typ, sg in (("long", 1), ("short", -1)):
-        liqv = E * (1 - sg * F(1, 10) + sg * F("0.004"))
-        for mode in ("isolated", "cross"):
+    E = F(100)
+    # leverage 10, and leverage 1: the bankruptcy price of a long is then exactly 0 (a falsy number - `price or ..` idioms take the
+    # other branch)
+    for (typ, sg), lev in [(ts, lv) for ts in (("long", 1), ("short", -1)) for lv in (F(10), F(1))]:
+        liqv = E * (1 - sg / lev + sg * F("0.004"))
+        for mode in (("isolated", "cross") if lev == 10 else ("isolated",)):
             for rel, (lo, hi) in {"inside": (liqv - 1, liqv + 1), "touch-low": (liqv, liqv + 2), "touch-high": (liqv - 2, liqv),
                                   "above": (liqv + F(1, 2), liqv + 3), "below": (liqv - 3, liqv - F(1, 2))}.items():
                 smp = {"P": F(2), "E": E, "lev": lev, "cp": F(95), "l": lo, "h": hi, "o": lo, "c": hi, "ts": F(0), "v": F(1), "f": F(1, 100),
@@ -163,7 +165,7 @@ def check_trigger(repo, rep):
                     fn = repo.func(BT, "_check_for_liquidations")
                     return it, lambda it: it.call(FuncV(fn, repo.module(BT), qual="_check_for_liquidations"), [W.candle(), "Sandbox", SYM], {})
                 for out in explore(mk, 32):
-                    key = f"{typ}|{mode}|{rel}"
+                    key = f"{typ}|{mode}|{rel}|lev={lev}"
                     should = mode == "isolated" and rel in ("inside", "touch-low", "touch-high")
                     if out.kind != "return":
                         rep.violation(rid, key + "|raises", f"_check_for_liquidations raises {out.value} for {key}")
@@ -203,7 +205,16 @@ def check_trigger(repo, rep):
                             probs.append(f"position size after liquidation {pq!r}")
                         dw = w["ex"].attrs["assets"]["USDT"] - A("Wt")
                         want = -(A("P") * A("E") / A("lev")) - A("f") * A("P") * bk
-                        if not dw.same(want):
+                        same = dw.same(want)
+                        if not same and lev == 1:
+                            # at leverage 1 the bankruptcy price of a long is 0: |0| has no sign, so the polynomial the interpreter
+                            # extracts is one of two that agree there - the case is decided on the witness itself
+                            sm = out.interp.samples[0] if out.interp.samples else smp
+                            try:
+                                same = dw.evaluate(lambda a_: sm[a_]) == want.evaluate(lambda a_: sm[a_])
+                            except (KeyError, ZeroDivisionError):
+                                same = False
+                        if not same:
                             probs.append(f"wallet change {dw!r} != -(initial margin) - fee = {want!r}")
                         if probs:
                             rep.violation(rid, f"order|{typ}", f"liquidation of a {typ} position ({rel}): " + "; ".join(probs))
